@@ -258,8 +258,10 @@ def vhdx_params(draw, conformant=True, small=True):
         p['region_before'] = draw(st.sampled_from([100, 2045]))
         p['region_after'] = 0 if p['region_before'] == 2045 else 1
     if draw(st.integers(0, 7)) == 0:
-        p['meta_before'] = draw(st.sampled_from([100, 2045]))
-        p['meta_after'] = 0 if p['meta_before'] == 2045 else 1
+        # 2046 entries before the size item = 2047 in all, the largest
+        # table the format allows
+        p['meta_before'] = draw(st.sampled_from([100, 2045, 2046]))
+        p['meta_after'] = 0 if p['meta_before'] >= 2045 else 1
     p['meta_len'] = draw(st.sampled_from([MI, MI, 2 * MI, 2 ** 32 - 1,
                                            p['item_offset'] + 8]))
     if not conformant:
